@@ -79,12 +79,21 @@ def bus_history(ctx, simpy, uros, msgs, rng, k):
     def now():
         return float(core.now)
 
+    # the `time` field is the *source's* stamp: late samples, jitter and a source clock that restarts are all legitimate; the
+    # bus delivers and logs by publication order, whatever the payload says
+    clock_offset = {t: float(rng.choice([0.0, 0.0, -0.2, 5.0])) for t in topics}
+
+    def stamp(topic):
+        if rng.random() < 0.03:
+            clock_offset[topic] = -now()  # the source clock restarts
+        return now() + clock_offset[topic] - (float(rng.uniform(0, 0.05)) if rng.random() < 0.25 else 0.0)
+
     def make_msg(topic, typ=None):
         typ = typ or ttype[topic]
         m = types[typ]()
         counter["n"] += 1
         mid = float(counter["n"])
-        m.data["time"] = now()
+        m.data["time"] = stamp(topic)
         m.data[ID_FIELD[typ]][0] = mid
         return m, mid
 
@@ -96,7 +105,7 @@ def bus_history(ctx, simpy, uros, msgs, rng, k):
         m = reuse[topic]
         counter["n"] += 1
         mid = float(counter["n"])
-        m.data["time"] = now()
+        m.data["time"] = stamp(topic)
         m.data[ID_FIELD[ttype[topic]]][0] = mid
         return m, mid
 
@@ -385,6 +394,10 @@ def estimator_history(ctx, simpy, uros, msgs, AttitudeEstimator, eqs, rng, k):
     core.init_params()
     dmin_a = float(rng.choice([1 / 200, 0.02, 0.05]))
     dmin_m = float(rng.choice([1 / 200, 0.05, 0.1]))
+    slow = rng.random() < 0.25  # minimum intervals of seconds (the limit is absolute: dt_min minus a 1 ms tolerance, whatever dt_min is)
+    if slow:
+        dmin_a = float(rng.choice([1.2, 2.5]))
+        dmin_m = float(rng.choice([1.5, 4.0]))
     core.set_param("mrp/dt_min_accel", dmin_a)
     core.set_param("mrp/dt_min_mag", dmin_m)
     sent = {"imu": 0, "mag": 0, "dup": 0, "back": 0}
@@ -400,7 +413,7 @@ def estimator_history(ctx, simpy, uros, msgs, AttitudeEstimator, eqs, rng, k):
                 stamp = t - float(rng.uniform(0, 0.03))
                 sent["back"] += 1
             else:
-                t = t + float(rng.choice([1e-4, 1e-3, 0.005, 0.011, 0.05]))
+                t = t + float(rng.choice([1e-4, 1e-3, 0.005, 0.011, 0.05]) if not slow else rng.choice([0.0007, 1e-3, 0.0013]))
                 stamp = t
             m = msgs.Imu()
             m.data["time"] = stamp
@@ -409,7 +422,7 @@ def estimator_history(ctx, simpy, uros, msgs, AttitudeEstimator, eqs, rng, k):
             cur["t"] = stamp
             sent["imu"] += 1
             pub_imu.publish(m)
-            if rng.random() < 0.4:
+            if rng.random() < (0.4 if not slow else 0.9):
                 mm = msgs.Mag()
                 ms = stamp + float(rng.uniform(-0.01, 0.01))
                 mm.data["time"] = ms
@@ -423,7 +436,7 @@ def estimator_history(ctx, simpy, uros, msgs, AttitudeEstimator, eqs, rng, k):
     exc = None
     try:
         with quiet():
-            core.run(until=float(rng.uniform(1.5, 3.0)))
+            core.run(until=float(rng.uniform(1.5, 3.0)) if not slow else 30.0)
     except Exception as e:
         exc = "%s: %s" % (type(e).__name__, str(e)[:200])
     case = {"initialize": init, "dt_min_accel": dmin_a, "dt_min_mag": dmin_m, "sent": sent}
